@@ -381,6 +381,9 @@ Proof.
     { cbn. split; [reflexivity|exact HS]. }
     destruct (mh_alloc_ok_spec s n HI Hn Hfit) as [h0 [Heq [Hh Habs]]]. rewrite Heq. cbn [fst snd].
     replace (n =? 0) with false by lia. replace (USIZE <=? n * VALUE_SIZE) with false by lia. cbn [orb].
+    assert (Hc3 : (USIZE <=? (sm_total (live sp) + n) * VALUE_SIZE) = false).
+    { rewrite (sim_total s sp HS). pose proof (inv_bytes s HI) as Hb0. rewrite vs8 in *. lia. }
+    rewrite Hc3.
     rewrite <- (sim_get s sp HS h0), Habs. cbn [fst snd]. split; [reflexivity|].
     set (slot := {| sl_data := repeat VNULL (N.to_nat n); sl_freed := false |}).
     assert (Hw : slot_w slot = n) by (unfold slot_w, slot; cbn; apply repeat_len).
@@ -486,10 +489,64 @@ Proof.
       replace (h <? N.of_nat (length (allocs s))) with false by lia. reflexivity.
 Qed.
 
-(* ------------------------------------------------------------------ histories *)
-Fixpoint fits_hist (s : mheap) (os : list mop) : Prop :=
-  match os with [] => True | o :: r => mh_fits s o /\ fits_hist (fst (mh_step s o)) r end.
+(* ------------------------------------------------------------------ no guard needed *)
+(* Since the charge is checked before anything is touched, an allocation that does not fit is
+   simply an InvalidSize error that changes nothing; every statement above therefore holds
+   without [mh_fits]. *)
+Lemma fits_dec s o : {mh_fits s o} + {~ mh_fits s o}.
+Proof.
+  destruct o as [n| | | |]; cbn [mh_fits]; try (left; exact I).
+  destruct (bytes s + n * VALUE_SIZE <? USIZE) eqn:E; [left|right]; lia.
+Qed.
 
+Lemma nofit_step s o : ~ mh_fits s o -> mh_step s o = (s, RErr EInvalidSize).
+Proof.
+  destruct o as [n| | | |]; cbn [mh_fits]; try (intro H; exfalso; apply H; exact I).
+  intro H. cbn [mh_step]. unfold mh_alloc, allocation_bytes.
+  destruct (n =? 0); [reflexivity|]. destruct (n * VALUE_SIZE <? USIZE) eqn:E; [|reflexivity].
+  replace (bytes s + n * VALUE_SIZE <? USIZE) with false by lia. reflexivity.
+Qed.
+
+Lemma nofit_spec s sp o r :
+  Inv s -> Sim s sp -> ~ mh_fits s o -> spec_step sp o r = (sp, RErr EInvalidSize).
+Proof.
+  intros HI HS. destruct o as [n| | | |]; cbn [mh_fits]; try (intro H; exfalso; apply H; exact I).
+  intro H. cbn [spec_step].
+  assert (Hc : (n =? 0) || (USIZE <=? n * VALUE_SIZE) || (USIZE <=? (sm_total (live sp) + n) * VALUE_SIZE) = true).
+  { rewrite (sim_total s sp HS). pose proof (inv_bytes s HI) as Hb0. rewrite vs8 in *.
+    apply orb_true_iff. right. lia. }
+  rewrite Hc. reflexivity.
+Qed.
+
+Lemma mh_err_unchanged_u s o : Inv s -> is_err (snd (mh_step s o)) = true -> fst (mh_step s o) = s.
+Proof.
+  intros HI He. destruct (fits_dec s o) as [Hf|Hf]; [apply mh_err_unchanged; assumption|].
+  rewrite (nofit_step s o Hf). reflexivity.
+Qed.
+
+Lemma mh_step_inv_u s o : Inv s -> Inv (fst (mh_step s o)).
+Proof.
+  intro HI. destruct (fits_dec s o) as [Hf|Hf]; [apply mh_step_inv; assumption|].
+  rewrite (nofit_step s o Hf). exact HI.
+Qed.
+
+Lemma mh_never_panics_u s o : Inv s -> snd (mh_step s o) <> RPanic.
+Proof.
+  intro HI. destruct (fits_dec s o) as [Hf|Hf]; [apply mh_never_panics; assumption|].
+  rewrite (nofit_step s o Hf). discriminate.
+Qed.
+
+Lemma mh_refines_u s sp o :
+  Inv s -> Sim s sp ->
+  Inv (fst (mh_step s o))
+  /\ snd (spec_step sp o (snd (mh_step s o))) = snd (mh_step s o)
+  /\ Sim (fst (mh_step s o)) (fst (spec_step sp o (snd (mh_step s o)))).
+Proof.
+  intros HI HS. destruct (fits_dec s o) as [Hf|Hf]; [apply mh_refines_lemma; assumption|].
+  rewrite (nofit_step s o Hf). cbn [fst snd]. rewrite (nofit_spec s sp o _ HI HS Hf). cbn [fst snd]. auto.
+Qed.
+
+(* ------------------------------------------------------------------ histories *)
 Lemma mh_run_cons s o r :
   mh_run s (o :: r) = (fst (mh_run (fst (mh_step s o)) r), snd (mh_step s o) :: snd (mh_run (fst (mh_step s o)) r)).
 Proof. cbn [mh_run]. destruct (mh_step s o) as [s1 x]. cbn [fst snd]. destruct (mh_run s1 r) as [s2 xs]. reflexivity. Qed.
@@ -505,17 +562,16 @@ Lemma spec_run_cons sp o r x xs :
 Proof. cbn [spec_run]. destruct (spec_step sp o x) as [sp1 y]. cbn [fst snd]. destruct (spec_run sp1 r xs) as [sp2 ys]. reflexivity. Qed.
 
 Lemma mh_refines_history_lemma os : forall s sp,
-  Inv s -> Sim s sp -> fits_hist s os ->
+  Inv s -> Sim s sp ->
   Inv (mh_exec s os)
   /\ snd (spec_run sp os (snd (mh_run s os))) = snd (mh_run s os)
   /\ Sim (mh_exec s os) (fst (spec_run sp os (snd (mh_run s os)))).
 Proof.
-  induction os as [|o r IH]; intros s sp HI HS Hf.
+  induction os as [|o r IH]; intros s sp HI HS.
   - cbn. auto.
-  - destruct Hf as [Hf1 Hf2].
-    destruct (mh_refines_lemma s sp o HI HS Hf1) as [HI1 [Hr HS1]].
+  - destruct (mh_refines_u s sp o HI HS) as [HI1 [Hr HS1]].
     rewrite mh_run_cons. cbn [fst snd]. rewrite spec_run_cons. cbn [fst snd].
-    destruct (IH _ _ HI1 HS1 Hf2) as [HI2 [Hr2 HS2]].
+    destruct (IH _ _ HI1 HS1) as [HI2 [Hr2 HS2]].
     cbn [mh_exec fold_left]. fold (mh_exec (fst (mh_step s o)) r).
     split; [exact HI2|]. split; [rewrite Hr, Hr2; reflexivity|exact HS2].
 Qed.
@@ -594,6 +650,13 @@ Proof.
   - unfold mh_size in Hr. destruct (nth_N (allocs s) k) as [sl|]; [destruct (sl_freed sl)|]; discriminate.
 Qed.
 
+Lemma isolation_u s o h d :
+  Inv s -> abs s h = Some d -> op_target o <> Some h -> abs (fst (mh_step s o)) h = Some d.
+Proof.
+  intros HI Hd Ht. destruct (fits_dec s o) as [Hf|Hf]; [apply isolation_lemma; assumption|].
+  rewrite (nofit_step s o Hf). exact Hd.
+Qed.
+
 Lemma opt_N_dec (a b : option N) : {a = b} + {a <> b}.
 Proof. decide equality. apply N.eq_dec. Qed.
 
@@ -620,23 +683,31 @@ Proof.
   - rewrite (isolation_lemma s o h d HI Hfit Hd Ht). exact Hc.
 Qed.
 
+Lemma cell_step_stable_u s o h off v :
+  Inv s -> cell s h off = Some v -> o <> MFree h -> (forall w, o <> MStore h off w) ->
+  cell (fst (mh_step s o)) h off = Some v.
+Proof.
+  intros HI Hc H1 H2. destruct (fits_dec s o) as [Hf|Hf]; [apply cell_step_stable; assumption|].
+  rewrite (nofit_step s o Hf). exact Hc.
+Qed.
+
 Definition leaves_cell (h off : N) (o : mop) : Prop := o <> MFree h /\ forall w, o <> MStore h off w.
 
 Lemma cell_history_stable os : forall s h off v,
-  Inv s -> fits_hist s os -> cell s h off = Some v -> Forall (leaves_cell h off) os ->
+  Inv s -> cell s h off = Some v -> Forall (leaves_cell h off) os ->
   cell (mh_exec s os) h off = Some v.
 Proof.
-  induction os as [|o r IH]; intros s h off v HI Hf Hc Hall; [exact Hc|].
-  destruct Hf as [Hf1 Hf2]. inversion Hall as [|? ? [H1 H2] Hr]; subst.
+  induction os as [|o r IH]; intros s h off v HI Hc Hall; [exact Hc|].
+  inversion Hall as [|? ? [H1 H2] Hr]; subst.
   cbn [mh_exec fold_left]. fold (mh_exec (fst (mh_step s o)) r).
-  apply IH; auto. apply mh_step_inv; assumption. apply cell_step_stable; assumption.
+  apply IH; auto. apply mh_step_inv_u; assumption. apply cell_step_stable_u; assumption.
 Qed.
 
 Lemma load_after_store_history s h off v s1 os :
-  Inv s -> mh_store s h off v = (s1, ROkUnit) -> fits_hist s1 os -> Forall (leaves_cell h off) os ->
+  Inv s -> mh_store s h off v = (s1, ROkUnit) -> Forall (leaves_cell h off) os ->
   mh_load (mh_exec s1 os) h off = ROkVal v.
 Proof.
-  intros HI Hst Hf Hall. apply load_cell. apply cell_history_stable; auto.
+  intros HI Hst Hall. apply load_cell. apply cell_history_stable; auto.
   - replace s1 with (fst (mh_step s (MStore h off v))) by (cbn [mh_step]; rewrite Hst; reflexivity).
     apply mh_step_inv; [exact HI|exact I].
   - apply load_cell. eapply load_after_store_lemma. exact Hst.
@@ -679,6 +750,13 @@ Proof.
     + rewrite Hf. exact Ha.
     + rewrite Hs. exact Ha.
   - rewrite abs_step_other; auto.
+Qed.
+
+Lemma stale_stays_stale_u s o h :
+  Inv s -> abs s h = None -> snd (mh_step s o) <> ROkHandle h -> abs (fst (mh_step s o)) h = None.
+Proof.
+  intros HI Ha Hr. destruct (fits_dec s o) as [Hf|Hf]; [apply stale_stays_stale; assumption|].
+  rewrite (nofit_step s o Hf). exact Ha.
 Qed.
 
 (* bounds *)
@@ -774,7 +852,7 @@ Proof.
         split; [reflexivity|]. split; [exact I|].
         destruct sf; cbn [vm_step]; replace (z <? 0)%Z with false by lia; reflexivity.
     + destruct sf; right; right; cbn; auto.
-    + destruct sf; [right; left; cbn; auto|right; right; cbn; auto].
+    + destruct sf; right; left; cbn; auto.
   - (* load *)
     destruct h as [hz| |]; [|destruct sf; right; left; cbn; auto ..].
     destruct o as [oz| |]; [|destruct sf; right; left; cbn; auto ..].
@@ -882,20 +960,27 @@ Proof.
   replace s1 with (fst (vm_step sf maxh gc s o)) by (rewrite E; reflexivity). apply vm_step_inv; assumption.
 Qed.
 
-(* ------------------------------------------------------------------ the raw API without the guard *)
-(* ManualHeap::alloc installs the slot before its checked_add: when the charge would not fit a
-   usize the call fails AFTER having changed the slot table.  Unreachable through VM::manual_alloc
-   (ensure_heap_capacity bounds the sum by max_heap_bytes <= u64::MAX), and would need 2^64 bytes
-   of live buffers; the witness therefore is abstract (a buffer of 2^60 slots), not computed. *)
-Lemma mh_alloc_overflow_spec s n :
-  n <> 0 -> n * VALUE_SIZE < USIZE -> free_list s = [] -> USIZE <= bytes s + n * VALUE_SIZE ->
-  mh_alloc s n = ({| allocs := allocs s ++ [{| sl_data := repeat VNULL (N.to_nat n); sl_freed := false |}];
-                     free_list := []; bytes := bytes s |}, RErr EInvalidSize).
-Proof.
-  intros Hn Hb Hfl Hov. unfold mh_alloc, allocation_bytes. rewrite Hfl.
-  replace (n =? 0) with false by lia. replace (n * VALUE_SIZE <? USIZE) with true by lia.
-  cbn [negb]. replace (bytes s + n * VALUE_SIZE <? USIZE) with false by lia. reflexivity.
-Qed.
+(* ------------------------------------------------------------------ HISTORICAL: the pre-fix allocation *)
+(* Before /repo commit f05dd1f ManualHeap::alloc installed the slot and popped the free list BEFORE
+   its checked_add on the charge.  [mh_alloc_prefix] is that OLD definition, kept only to record
+   why the repair was needed: the old code was not error-atomic (abstract witness: 2^63 bytes
+   live, a further 2^63-byte request).  Nothing in Props/C09.v is about this definition. *)
+Definition mh_alloc_prefix (s : mheap) (n : N) : mheap * mres :=
+  if n =? 0 then (s, RErr EInvalidSize) else
+  match allocation_bytes n with
+  | None => (s, RErr EInvalidSize)
+  | Some b =>
+      let slot := {| sl_data := repeat VNULL (N.to_nat n); sl_freed := false |} in
+      let '(al, fl, h, ok) :=
+        match free_list s with
+        | idx :: rest => (upd_N (allocs s) idx slot, rest, idx, idx <? N.of_nat (length (allocs s)))
+        | [] => (allocs s ++ [slot], [], N.of_nat (length (allocs s)), true)
+        end in
+      if negb ok then (s, RPanic) else
+      if bytes s + b <? USIZE
+      then ({| allocs := al; free_list := fl; bytes := bytes s + b |}, ROkHandle h)
+      else ({| allocs := al; free_list := fl; bytes := bytes s |}, RErr EInvalidSize)
+  end.
 
 Definition BIG : N := 1152921504606846976.      (* 2^60 slots = 2^63 bytes *)
 Definition big_heap : mheap :=
@@ -911,16 +996,21 @@ Proof.
   - reflexivity.
 Qed.
 
-Lemma raw_alloc_overflow_refuted_lemma :
-  exists s o, Inv s /\ is_err (snd (mh_step s o)) = true /\ fst (mh_step s o) <> s.
+Lemma prefix_alloc_not_error_atomic :
+  exists s n, Inv s /\ is_err (snd (mh_alloc_prefix s n)) = true /\ fst (mh_alloc_prefix s n) <> s.
 Proof.
-  exists big_heap, (MAlloc BIG). split; [exact big_heap_inv|].
-  cbn [mh_step]. rewrite mh_alloc_overflow_spec.
-  - cbn [fst snd is_err]. split; [reflexivity|]. intro H.
-    apply (f_equal (fun x => length (allocs x))) in H. cbn [allocs big_heap] in H.
-    rewrite app_length in H. cbn [length] in H. lia.
-  - discriminate.
-  - reflexivity.
-  - reflexivity.
-  - cbn [bytes big_heap]. unfold BIG, VALUE_SIZE, USIZE. lia.
+  exists big_heap, BIG. split; [exact big_heap_inv|].
+  assert (E : mh_alloc_prefix big_heap BIG =
+              ({| allocs := allocs big_heap ++ [{| sl_data := repeat VNULL (N.to_nat BIG); sl_freed := false |}];
+                  free_list := []; bytes := bytes big_heap |}, RErr EInvalidSize)).
+  { unfold mh_alloc_prefix, allocation_bytes. change (BIG =? 0) with false. cbv iota.
+    change (BIG * VALUE_SIZE <? USIZE) with true. cbv iota. cbn [free_list big_heap negb]. cbv iota.
+    change (bytes big_heap + BIG * VALUE_SIZE <? USIZE) with false. reflexivity. }
+  rewrite E. cbn [fst snd is_err]. split; [reflexivity|]. intro H.
+  apply (f_equal (fun x => length (allocs x))) in H. cbn [allocs big_heap] in H.
+  rewrite app_length in H. cbn [length] in H. lia.
 Qed.
+
+(* the repaired allocation on the same state: an error that changes nothing *)
+Lemma big_heap_alloc_now : mh_alloc big_heap BIG = (big_heap, RErr EInvalidSize).
+Proof. exact (nofit_step big_heap (MAlloc BIG) ltac:(cbn [mh_fits bytes big_heap]; unfold BIG, VALUE_SIZE, USIZE; lia)). Qed.
